@@ -1,5 +1,6 @@
 (* C06  The clock equals the time asked for; commands advance it as documented.  router = every component dispatcher (which never writes the clock: hypothesis Hframe, monitored on the implementation) followed by the timer.  C06_play: one play advances the clock by exactly the payload of a direct *.elapse action and by nothing else (relayed callbacks add nothing).  C06_command: ELAPSE t advances by t, CAST by the first positive delay its use-play announces (else 0), RESOLVE by the pending delay of the named skill among the buffered events, USE and KEYDOWNSTOP by 0; the play logs' elapse payloads add up to the advance.  C06_monotone: the clock never decreases under non-negative ELAPSE.  Time in integer ticks.  Proofs: Model/Play.v, Proofs/EngineClock.v. *)
 From V.Model Require Import Engine Play. From V.Proofs Require Import EngineClock.
+From V.Model Require Comp EPeriodic. From V.Proofs Require CompChunk CompChunkHL.
 
 Theorem C06_play :
   forall (S Pay Name Meth Tag : Type) (clock : S -> BinNums.Z)
@@ -106,6 +107,22 @@ Theorem C06_monotone :
                       (fun t : BinNums.Z => BinInt.Z.eqb t BinNums.Z0) o st b)))).
 Proof. exact @C06_monotone. Qed.
 
+(* "every 'elapsed' notification carries exactly the time of the elapse that caused it": for the
+   stateful classes of component/common (Model/Comp.v; proofs with C09) *)
+Theorem C06_elapsed_carries_time :
+  forall (c : Comp.comp) (p : Comp.par) (t : BinNums.Z) (s s' : Comp.ust) (es : list Comp.ev),
+    CompChunk.chunk_proved c = true ->
+    Comp.reduce_spec c Comp.MElapse p t s = Some (s', es) -> CompChunk.elapsed_times es = (t :: nil)%list.
+Proof. exact @CompChunk.elapsed_carries_time. Qed.
+
+Theorem C06_elapsed_carries_time_hit_limited :
+  forall (p : Comp.par) (t : BinNums.Z) (s : Comp.ust),
+    EPeriodic.wf (Comp.u_p1 s) -> BinInt.Z.le BinNums.Z0 t ->
+    CompChunk.elapsed_times (snd (Comp.hl_spec p t s)) = (t :: nil)%list.
+Proof. exact @CompChunkHL.hl_elapsed_carries_time. Qed.
+
 Print Assumptions C06_play.
 Print Assumptions C06_command.
 Print Assumptions C06_monotone.
+Print Assumptions C06_elapsed_carries_time.
+Print Assumptions C06_elapsed_carries_time_hit_limited.
